@@ -370,12 +370,14 @@ def _d8_subst(text, arg):
     """D8: literal token substitution list [(regex, replacement, why)], each must fire. Used for
     `auto` -> declared type and for template parameter monomorphisation (D4)."""
     cnt = 0
-    for pat, rep, _why in arg:
+    for ent in arg:
+        pat, rep = ent[0], ent[1]
+        optional = len(ent) > 3 and ent[3]       # (regex, replacement, why, True): nothing to rewrite if the text does not contain it
         text, c = re.subn(pat, rep, text)
-        if c == 0:
+        if c == 0 and not optional:
             raise SliceError('D8 substitution /%s/ did not fire' % pat)
         cnt += c
-    return text, cnt
+    return text, max(cnt, 1) if arg and all(len(e) > 3 and e[3] for e in arg) else cnt
 
 
 def _d9_drop_template_header(text, arg):
